@@ -299,6 +299,49 @@ def directed_personas(year, seed, n):
     return out
 
 
+def directed_hsa(res, year, p, sol, label, rp):
+    """Schedule 1 line 13 (HSA deduction, "attach Form 8889"): the deduction of the taxpayer's Form 8889 plus, on a joint return,
+    that of the spouse's own Form 8889 - each spouse with an HSA completes a separate form (Form 8889 instructions).  The
+    persona knows who has an HSA, whatever the return ended up demanding."""
+    if not (getattr(p, 'hsa_you', False) or getattr(p, 'hsa_spouse', False)) or '1040_s1.13' not in sol:
+        return
+    joint = p.status == 'MFJ'
+    exp = 0.0
+    need = []
+    if p.hsa_you:
+        need.append('8889:you.hsa_deduction')
+    if p.hsa_spouse and joint:
+        need.append('8889:spouse.hsa_deduction')
+    res.evaluations += 1
+    res.count('rule_instances_transcribed')
+    res.distinct.add(f'{year}|1040_s1.13|transcribed-directed|{len(need)}')
+    missing = [k for k in need if k not in sol]
+    if missing:
+        res.violation(f'C02|{year}|1040_s1.13|required-line-absent', f'{label}: Schedule 1 line 13 is {sol["1040_s1.13"]} but {missing} (the Form 8889 of a spouse who has an HSA) was never figured', rp)
+        return
+    if not joint and any(k.startswith('8889:spouse.') for k in sol):
+        res.violation(f'C02|{year}|1040_s1.13|transcribed', f'{label}: a Form 8889 for the spouse is part of a return that is not joint (Schedule 1 line 13 = {sol["1040_s1.13"]})', rp)
+        return
+    exp = sum(sol[k] for k in need)
+    if abs(sol['1040_s1.13'] - exp) > 0.005:
+        res.violation(f'C02|{year}|1040_s1.13|transcribed', f'{label}: Schedule 1 line 13 = {sol["1040_s1.13"]}; the Forms 8889 of the return give {exp} ({need})', rp)
+
+
+def directed_8606(res, year, p, sol, label, rp):
+    """Form 8606 Part I ("complete this part only if ... you made nondeductible contributions to a traditional IRA ..."): whoever
+    needs Part I completes lines 1-3 and line 14 (the basis carried to next year), with or without a distribution."""
+    if getattr(p, 'ira_mode', None) != '8606' or not p.f8606.get('part_1_needed'):
+        return
+    for sec in sorted({k.split('.')[0] for k in sol if k.startswith('8606:')}):
+        res.evaluations += 1
+        res.count('rule_instances_required_line')
+        res.distinct.add(f'{year}|8606.14|required-directed')
+        missing = [l for l in ('1', '2', '3', '14') if f'{sec}.{l}' not in sol]
+        if missing:
+            res.violation(f'C02|{year}|8606.14|required-line-absent', f'{label}: {sec} takes part with Part I needed, but lines {missing} were not completed', rp)
+            return
+
+
 def directed_penalty(res, year, p, sol, label, rp):
     """Form 1040 instructions, line 38: you may owe the penalty if line 37 is at least $1,000 and more than 10 % of the tax shown
     on the return (line 24 less lines 27/27a, 28, 29 and - 2021 - 30).  The persona's penalty is a known amount."""
@@ -358,6 +401,9 @@ def run_shard(spec, tier, seed):
                 res.count('full_evaluation_failed')
             directed_ira(res, year, p, sol, f'{year} {fam} {p.key}', realwork.replay_of(p, 'base', spec))
             directed_penalty(res, year, p, sol, f'{year} {fam} {p.key}', realwork.replay_of(p, 'base', spec))
+            if out.exc is None and out.ret is True:
+                directed_hsa(res, year, p, sol, f'{year} {fam} {p.key}', realwork.replay_of(p, 'base', spec))
+                directed_8606(res, year, p, sol, f'{year} {fam} {p.key}', realwork.replay_of(p, 'base', spec))
             if len(res.samples) < 1:
                 res.sample({'persona': p.describe(), 'lines_in_solution': len(sol), 'rule_instances_so_far': res.evaluations})
     return res
